@@ -28,7 +28,7 @@ ANCHORS = ["coxeter.shapes.polyhedron:Polyhedron.compute_form_factor_amplitude",
 REQUIRED_MONITORS = ["Polyhedron.form_factor", "Polygon.form_factor", "Sphere.form_factor", "F(-q)=conj", "translation-phase",
                      "batch-vs-single", "oracle-second-opinion:box"]
 REQUIRED_CLASSES = ["q:zero", "q:along-normal", "q:perp-edge", "q:axis", "q:approach-normal", "q:approach-zero", "batch:(1,3)",
-                    "density!=1", "polygon:cw", "polygon:ccw", "mesh:voxel"]
+                    "density!=1", "polygon:cw", "polygon:ccw", "mesh:voxel", "sphere:extreme-units"]
 WATCHDOG = {"quick": 1800, "thorough": 14400}
 _cache = {}
 
@@ -304,6 +304,12 @@ def run_case(i, rng, rec, tier, state):
         (r,), _ = gen.axes_case(rng, 1)
         r = float(np.clip(r, 1e-2, 1e2))
         cen, _ = gen.center_case(rng, r)
+        if rng.random() < 0.2:
+            # the same sphere in very small / very large units (a nanoparticle written in metres ...): F is homogeneous
+            # (F -> u^3 F at q/u), so nothing in the oracle changes, but absolute thresholds in the code under test would
+            unit = float(10 ** rng.uniform(-10, -7)) if rng.random() < 0.7 else float(10 ** rng.uniform(4, 6))
+            r, cen = r * unit, np.asarray(cen, float) * unit
+            rec.cls("sphere:extreme-units")
         s = cs.Sphere(r, cen)
         q, tags = points.wavevectors(rng, 2 * r, np.eye(3), None, nq)
         name, info = "Sphere", {"class": "Sphere", "radius": r, "center": cen}
